@@ -363,10 +363,42 @@ func nestingSpace(thorough bool) space {
 	return space{"nesting", len(srcs), func(i int) string { return srcs[i] }}
 }
 
+// deepValueSpace: values that a three-line loop nests millions of levels deep - a list in a list in a list ..., the
+// same with maps, and the two alternating - handed to everything that walks a value: conversion to a string,
+// printing, interpolation, error formatting, equality and ordering against a second such value, membership, sorting,
+// JSON, copying, hashing. None of the values contains itself; what is at stake is whether walking a value costs native
+// stack in proportion to its depth (Go's limit is 1 GB, as in a real embedding process).
+func deepValueSpace(thorough bool) space {
+	const depth = 3000000
+	shapes := map[string]string{
+		"list": "dv_x = [dv_x]",
+		"map":  "dv_x = {\"k\": dv_x}",
+		"both": "dv_x = i % 2 == 0 ? [dv_x] : {\"k\": dv_x}",
+	}
+	build := func(name, step string) string {
+		return name + " := []\nfor i := range " + strconv.Itoa(depth) + " { " + strings.ReplaceAll(step, "dv_x", name) + " }\n"
+	}
+	one := []string{"len(string(dv_x))", "print(dv_x)", "len('{dv_x}')", "error(\"%v\", dv_x)", "len(sprintf(\"%v\", dv_x))", "len(json.marshal(dv_x))", "type(dv_x)", "len(dv_x)",
+		"dv_x == dv_x", "[dv_x] == [dv_x]", "dv_x in [1, dv_x]", "{dv_x}", "len(dv_x.copy())", "hash(dv_x)", "try(func() { error(dv_x) }, func(e) { return len(string(e)) })", "dv_x"}
+	two := []string{"dv_x == dv_y", "dv_x != dv_y", "dv_x < dv_y", "dv_x in [dv_y]", "[dv_y].index(dv_x)", "sorted([dv_x, dv_y])", "{\"a\": dv_x} == {\"a\": dv_y}", "[1, dv_y].count(dv_x)"}
+	var srcs []string
+	for _, sh := range []string{"list", "map", "both"} {
+		for _, c := range one {
+			srcs = append(srcs, build("dv_x", shapes[sh])+c)
+		}
+		for _, c := range two {
+			srcs = append(srcs, build("dv_x", shapes[sh])+build("dv_y", shapes[sh])+c)
+		}
+	}
+	return space{"deepvalue", len(srcs), func(i int) string { return srcs[i] }}
+}
+
 func spaceByName(name string, thorough bool) space {
 	switch name {
 	case "nesting":
 		return nestingSpace(thorough)
+	case "deepvalue":
+		return deepValueSpace(thorough)
 	case "hostile":
 		return hostileSpace(thorough)
 	case "edits":
@@ -390,7 +422,7 @@ func spaces(thorough bool) []space {
 	if thorough {
 		l = 4
 	}
-	return []space{nestingSpace(thorough), hostileSpace(thorough), editSpace(thorough), edits2Space(thorough), slotSpace(), volumeSpace(), soupSpace(l)}
+	return []space{nestingSpace(thorough), deepValueSpace(thorough), hostileSpace(thorough), editSpace(thorough), edits2Space(thorough), slotSpace(), volumeSpace(), soupSpace(l)}
 }
 
 // ------------------------------------------------------------------ one input (runs in the worker)
@@ -400,6 +432,9 @@ type finding struct {
 	Stage string `json:"stage"`
 	Panic string `json:"panic"`
 }
+
+// evalDeadline is the deadline of the Eval stage (the deep-value space needs seconds to build its values).
+var evalDeadline = 15 * time.Millisecond
 
 var denied = []string{"exec", "http", "net", "dns", "os.exit", "exit", "fetch"}
 
@@ -433,7 +468,7 @@ func one(src string) (stage, pan string) {
 		return "", ""
 	}
 	stage = "eval"
-	c2, cancel := context.WithTimeout(ctx, 15*time.Millisecond)
+	c2, cancel := context.WithTimeout(ctx, evalDeadline)
 	defer cancel()
 	vos := ros.NewVirtualOS(c2)
 	v, err := risor.Eval(c2, src, risor.WithOS(vos), risor.WithoutGlobals(denied...), risor.WithConcurrency())
@@ -477,7 +512,10 @@ func Worker(args []string) {
 	name := args[1]
 	from, _ := strconv.Atoi(args[2])
 	to, _ := strconv.Atoi(args[3])
-	if name != "nesting" {
+	if name == "deepvalue" {
+		evalDeadline = 60 * time.Second
+	}
+	if name != "nesting" && name != "deepvalue" {
 		// infinite recursion dies faster; no finite recursion of these spaces comes near 32 MB.
 		// The nesting space keeps Go's default limit (1 GB): only what would kill a real
 		// embedding process is a finding.
@@ -577,6 +615,9 @@ func Check(r *ev.Run, replay string) {
 		if sp.name == "nesting" {
 			chunk = 4
 		}
+		if sp.name == "deepvalue" {
+			chunk = 1 // every input builds values of several hundred MB: one per child
+		}
 		for f := 0; f < sp.n; f += chunk {
 			t := f + chunk
 			if t > sp.n {
@@ -651,6 +692,8 @@ func Check(r *ev.Run, replay string) {
 								// which method recurses tells the known ways (Equals, Compare, Interface, MarshalJSON
 								// have no guard against cycles) from a new one (Inspect has a guard)
 								cls += ":cyclic-container:" + firstRisorMethod(stderr)
+							} else if cls == "fatal-stack-overflow" && j.sp.name == "deepvalue" {
+								cls += ":deep-value:" + recurringRisorMethod(stderr)
 							} else if fn := firstRisorFrame(stderr); fn != "" {
 								cls += ":" + fn
 							}
@@ -672,7 +715,7 @@ func Check(r *ev.Run, replay string) {
 		sort.Strings(skipped)
 		r.Set("skipped_inputs", skipped)
 	}
-	r.Set("rule", "soup: every sequence of <= 3 (thorough 4) tokens over a 68-token alphabet; edits: every single-token deletion and duplication, and the insertion of a line break (thorough: also of ; , : ( ) { }) at every token gap, of every program of the function/container/error/closure families (every 6th program in quick); edits2: every ordered pair of single-token edits (delete, insert or replace by one of 7 - thorough 15 - separator and bracket tokens) of 42 one-statement seeds, one per syntactic form, each with a parenthesised operand; hostile: every default-global callable (exec, network modules and exit excluded) x hostile argument tuples (arity 0-2; thorough all pairs), every method name x hostile receiver x hostile argument, operators/interpolation/indexing on all pairs of 22 hostile values; volume: every default-global callable and every method of six receiver kinds called 300 times in one process with 300 distinct strings / integers in each argument position; nesting: 25 constructs nested or chained 10..10^3 deep (prefix and bracket forms through the parser's recursion, operator / attribute / index / call / pipe chains through its loop), 24 of them also 10^6 deep (chains 4 x 10^6), complete and truncated (thorough: all at 10..10^6), and 63 constructs repeated 10..10^6 times one after the other (else-if chains, comments, line breaks, separators, elements, parameters, cases, template segments, targets, prefixes, suffixes, digits); slots: 25 templates (unbounded recursion through every call path, a function literal with a compile error inside every kind of block, for, if, switch, func, call, index/slice, assignment, import/from, go/defer, map, list, operators, jumps in and out of context, string escapes/interpolations, channel operations, attributes, pipes, range and for-in headers, try, comments, number literals, ++/--) x every combination of 2-15 fillers per slot, each alone and after a prelude that defines the names; shared (thorough): map/set/list x every ordered pair of 5-10 operations x go/spawn x {unordered, thread.wait() first, channel hand-off first}, each scenario free-running in its own child built with -race - a report through the Go runtime map routines on an unordered scenario is the access pattern behind the fatal error concurrent map writes, ordered scenarios must be silent. Every input runs parse, String, compile, Eval (15 ms deadline, virtual OS), risor.Call of up to four of its global names, and the error formatters in a worker child; distinct = worker batches completed")
+	r.Set("rule", "soup: every sequence of <= 3 (thorough 4) tokens over a 68-token alphabet; edits: every single-token deletion and duplication, and the insertion of a line break (thorough: also of ; , : ( ) { }) at every token gap, of every program of the function/container/error/closure families (every 6th program in quick); edits2: every ordered pair of single-token edits (delete, insert or replace by one of 7 - thorough 15 - separator and bracket tokens) of 42 one-statement seeds, one per syntactic form, each with a parenthesised operand; hostile: every default-global callable (exec, network modules and exit excluded) x hostile argument tuples (arity 0-2; thorough all pairs), every method name x hostile receiver x hostile argument, operators/interpolation/indexing on all pairs of 22 hostile values; volume: every default-global callable and every method of six receiver kinds called 300 times in one process with 300 distinct strings / integers in each argument position; nesting: 25 constructs nested or chained 10..10^3 deep (prefix and bracket forms through the parser's recursion, operator / attribute / index / call / pipe chains through its loop), 24 of them also 10^6 deep (chains 4 x 10^6), complete and truncated (thorough: all at 10..10^6), and 63 constructs repeated 10..10^6 times one after the other (else-if chains, comments, line breaks, separators, elements, parameters, cases, template segments, targets, prefixes, suffixes, digits); deepvalue: lists, maps and both alternating nested 3 x 10^6 deep by a loop, handed to 24 consumers that walk a value (string conversion, printing, interpolation, error formatting, ==, <, in, index, count, sorted, JSON, copy, hash), alone and against a second such value; slots: 25 templates (unbounded recursion through every call path, a function literal with a compile error inside every kind of block, for, if, switch, func, call, index/slice, assignment, import/from, go/defer, map, list, operators, jumps in and out of context, string escapes/interpolations, channel operations, attributes, pipes, range and for-in headers, try, comments, number literals, ++/--) x every combination of 2-15 fillers per slot, each alone and after a prelude that defines the names; shared (thorough): map/set/list x every ordered pair of 5-10 operations x go/spawn x {unordered, thread.wait() first, channel hand-off first}, each scenario free-running in its own child built with -race - a report through the Go runtime map routines on an unordered scenario is the access pattern behind the fatal error concurrent map writes, ordered scenarios must be silent. Every input runs parse, String, compile, Eval (15 ms deadline, virtual OS), risor.Call of up to four of its global names, and the error formatters in a worker child; distinct = worker batches completed")
 }
 
 var frameRe = regexp.MustCompile(`github.com/risor-io/risor/([a-zA-Z0-9_/]+)\.(\(\*?[A-Za-z0-9_]+\)\.)?([A-Za-z0-9_]+)`)
@@ -693,6 +736,25 @@ func firstRisorMethod(stderr string) string {
 		return "unknown"
 	}
 	return m[3]
+}
+
+// recurringRisorMethod names the method of risor's object package that occurs most often in the (clipped) stack dump
+// of a stack overflow: the one that recurses. Which function happens to be on top when the limit is hit varies; when
+// the dump shows no risor frame at all the recursion is inside a Go library that was handed the value (fmt).
+func recurringRisorMethod(stderr string) string {
+	count := map[string]int{}
+	for _, m := range frameRe.FindAllStringSubmatch(stderr, -1) {
+		if strings.HasPrefix(m[1], "object") && m[2] != "" {
+			count[m[3]]++
+		}
+	}
+	best, n := "go-library", 0
+	for k, v := range count {
+		if v > n || (v == n && k < best) {
+			best, n = k, v
+		}
+	}
+	return best
 }
 
 func clipSrc(s string) string {
@@ -718,7 +780,7 @@ func firstLines(s string, n int) string {
 func runWorker(self, tier, name string, from, to int) (last int, done bool, stderr string, fs []finding, hung bool) {
 	last = from - 1
 	limit := 4000000
-	if name == "nesting" {
+	if name == "nesting" || name == "deepvalue" {
 		limit = 14000000
 	}
 	cmd := exec.Command("/bin/sh", "-c", fmt.Sprintf("ulimit -v %d; exec %s c03-worker %s %s %d %d", limit, self, tier, name, from, to))
@@ -755,7 +817,7 @@ func runWorker(self, tier, name string, from, to int) (last int, done bool, stde
 		close(finished)
 	}()
 	window := 60 * time.Second
-	if name == "nesting" {
+	if name == "nesting" || name == "deepvalue" {
 		window = 300 * time.Second
 	}
 	timer := time.NewTimer(window)
